@@ -65,11 +65,11 @@ def extract(ctx):
 
 
 HEADER = '''From Coq Require Import ZArith QArith Qcanon String List.
-Require Import PV.Num PV.Json PV.Workspace PV.WorkspaceRun PV.gen.FactsC16.
+Require Import PV.Num PV.Run PV.Json PV.Workspace PV.WorkspaceRun PV.gen.FactsC16.
 Import ListNotations. Open Scope string_scope.
 Notation W := Build_workspace. Notation C := Build_channel. Notation S := Build_sample. Notation M := Build_modifier.
 Notation O := Build_observation. Notation P := Build_pconfig. Notation E := Build_measurement.
-Notation q := mkq. Notation F := (JNum true).
+Notation q := mkq.
 '''
 
 
@@ -205,26 +205,31 @@ M_POOL = ['meas', 'fit2', 'alt']
 LUMI_CFG = {'name': 'lumi', 'auxdata': [1.0], 'sigmas': [0.02], 'bounds': [[0.5, 1.5]], 'inits': [1.0]}
 
 
+def qz(x, den=64):
+    """quantise to a multiple of 1/den: an exact small rational for the model, the same float for pyhf"""
+    return round(x * den) / den
+
+
 def num(rng, lo, hi, ints=0.15):
     if rng.random() < ints:
         return rng.randrange(int(lo) + 1, int(hi) + 1)      # python int: 5 == 5.0 for the joins
-    return round(rng.uniform(lo, hi), 2)
+    return qz(rng.uniform(lo, hi), 8)
 
 
 def gen_modifier(rng, kind, ch, sname, nb, nom, tag):
     if kind == 'normsys':
-        return {'name': rng.choice(NORMSYS), 'type': 'normsys', 'data': {'lo': round(rng.uniform(0.8, 0.97), 3), 'hi': round(rng.uniform(1.03, 1.2), 3)}}
+        return {'name': rng.choice(NORMSYS), 'type': 'normsys', 'data': {'lo': qz(rng.uniform(0.8, 0.97)), 'hi': qz(rng.uniform(1.03, 1.2))}}
     if kind == 'histosys':
         return {'name': rng.choice(HISTOSYS), 'type': 'histosys',
-                'data': {'lo_data': [round(x * rng.uniform(0.85, 0.98), 3) for x in nom], 'hi_data': [round(x * rng.uniform(1.02, 1.15), 3) for x in nom]}}
+                'data': {'lo_data': [qz(x * rng.uniform(0.85, 0.98)) for x in nom], 'hi_data': [qz(x * rng.uniform(1.02, 1.15)) for x in nom]}}
     if kind == 'normfactor':
         return {'name': rng.choice(NORMFACTOR), 'type': 'normfactor', 'data': None}
     if kind == 'lumi':
         return {'name': 'lumi', 'type': 'lumi', 'data': None}
     if kind == 'staterror':
-        return {'name': 'staterror_%s%s' % (ch, tag), 'type': 'staterror', 'data': [round(max(0.1, x * rng.uniform(0.03, 0.2)), 3) for x in nom]}
+        return {'name': 'staterror_%s%s' % (ch, tag), 'type': 'staterror', 'data': [qz(max(0.1, x * rng.uniform(0.03, 0.2))) for x in nom]}
     if kind == 'shapesys':
-        return {'name': 'shp_%s_%s%s' % (ch, sname, tag), 'type': 'shapesys', 'data': [round(max(0.1, x * rng.uniform(0.05, 0.3)), 3) for x in nom]}
+        return {'name': 'shp_%s_%s%s' % (ch, sname, tag), 'type': 'shapesys', 'data': [qz(max(0.1, x * rng.uniform(0.05, 0.3))) for x in nom]}
     if kind == 'shapefactor':
         return {'name': 'sf_%s%s' % (ch, tag), 'type': 'shapefactor', 'data': None}
     raise ValueError(kind)
@@ -988,15 +993,97 @@ def make_group(rng, quick):
     return dict(env=env, ops=ops, tags=tags)
 
 
-def group_expr(g, results):
-    """one Coq term: the list of (model outcome, same-document flag) for every op of the group"""
-    names = {wid: 'w_' + wid for wid in g['env']}
-    lets = ''.join('let %s := %s in ' % (names[wid], c_ws(spec)) for wid, spec in g['env'].items())
-    items = []
-    for op, res in zip(g['ops'], results):
-        impl = '(Some %s)' % c_json(res['out']) if res['outcome'] == 'ok' else 'None'
-        items.append('chk (%s) %s' % (op_expr(op, names), impl))
-    return lets + '[' + '; '.join(items) + ']'
+def group_text(gi, g):
+    """Coq text for one group: its workspaces as top-level definitions, then one vm_compute of all its operations"""
+    names = {wid: 'g%d_%s' % (gi, wid) for wid in g['env']}
+    txt = ''.join('Definition %s := %s.\n' % (names[wid], c_ws(spec)) for wid, spec in g['env'].items())
+    txt += 'Eval vm_compute in (MARK, %d%%Z, [%s]).\n' % (gi, '; '.join('chk (%s)' % op_expr(op, names) for op in g['ops']))
+    return txt
+
+
+def eval_groups(ctx, groups, name='ops'):
+    """evaluate every operation of every group with the Coq model; returns {group index: [(code, fingerprint)]}"""
+    import re
+    import subprocess
+    d = os.path.join(ctx.work, name)
+    os.makedirs(d, exist_ok=True)
+    nshard = max(1, min(2 * core.NCPU, (len(groups) + 2) // 3))
+    files = []
+    for k in range(nshard):
+        fn = os.path.join(d, 'cases_%s_%d.v' % (name, k))
+        with open(fn, 'w') as f:
+            f.write(HEADER + '\n')
+            for gi in range(k, len(groups), nshard):
+                f.write(group_text(gi, groups[gi]))
+        files.append(fn)
+    out = {}
+    pending, running = list(files), []
+    texts = {}
+    while pending or running:
+        while pending and len(running) < core.NCPU:
+            fn = pending.pop(0)
+            running.append((fn, subprocess.Popen(['timeout', '900', 'coqc', '-w', '-all', '-R', core.COQ, 'PV', fn], cwd=d,
+                                                 stdout=subprocess.PIPE, stderr=subprocess.STDOUT, text=True)))
+        fn, pr = running.pop(0)
+        o, _ = pr.communicate()
+        if pr.returncode != 0:
+            for _, p2 in running:
+                p2.kill()
+            raise core.CoqEvalError('coqc failed on %s (rc=%d):\n%s' % (fn, pr.returncode, o[-3000:]))
+        texts[fn] = o
+    for fn in files:
+        for part in re.split(r'^\s*=\s*\(MARK,', texts[fn], flags=re.M)[1:]:
+            body = part[:part.rindex(': Marker')] if ': Marker' in part else part
+            body = ' '.join(body.split())
+            body = body[:body.rindex(')')]
+            gi_txt, lst = body.split(',', 1)
+            gi = int(re.sub(r'%\w+', '', gi_txt).strip())
+            out[gi] = core.parse_qc(lst)
+    if sorted(out) != list(range(len(groups))):
+        raise core.CoqEvalError('expected %d group results, parsed %d' % (len(groups), len(out)))
+    return out
+
+
+M89 = (1 << 89) - 1
+
+
+def fingerprint(j):
+    """PV.WorkspaceRun.fp over the key-sorted document, numbers by exact value"""
+    def red(x):
+        return (x & M89) + (x >> 89)
+
+    def tok(h, t):
+        return red(red(red(h * 1000003 + t)))
+
+    def fstr(s, h):
+        n = 0
+        for ch in s:
+            n = n * 256 + ord(ch)
+        return tok(tok(h, len(s)), n)
+
+    def go(j, h):
+        if j is None:
+            return tok(h, 1)
+        if isinstance(j, bool):
+            return tok(h, 3 if j else 2)
+        if isinstance(j, (int, float)):
+            f = core.frac(j)
+            n = f.numerator
+            return tok(tok(tok(h, 4), 2 * (-n) + 1 if n < 0 else 2 * n), f.denominator)
+        if isinstance(j, str):
+            return fstr(j, tok(h, 5))
+        if isinstance(j, list):
+            h = tok(tok(h, 6), len(j))
+            for x in j:
+                h = go(x, h)
+            return h
+        if isinstance(j, dict):
+            h = tok(tok(h, 7), len(j))
+            for k in sorted(j):
+                h = go(j[k], fstr(k, h))
+            return h
+        raise NotRepresentable(type(j).__name__)
+    return go(j, 7)
 
 
 def show_expr(g, op):
@@ -1149,16 +1236,15 @@ def run(ctx):
     model_stats = {}
     if have_facts and (tie is None or 'make failed' not in tie or 'props/C16' in tie):
         try:
-            exprs = [group_expr(g, rs) for g, rs in zip(groups, all_results)]
-            outs = core.coq_eval(ctx, 'ops', HEADER, exprs, shard=max(4, len(exprs) // (2 * core.NCPU) + 1))
-            for gi, (g, rs, o) in enumerate(zip(groups, all_results, outs)):
-                codes = core.parse_qc(o)
+            outs = eval_groups(ctx, groups)
+            for gi, (g, rs) in enumerate(zip(groups, all_results)):
+                codes = outs[gi]
                 if len(codes) != len(g['ops']):
                     raise core.CoqEvalError('group %d: %d codes for %d ops' % (gi, len(codes), len(g['ops'])))
-                for oi, (op, res, (mc, same)) in enumerate(zip(g['ops'], rs, codes)):
+                for oi, (op, res, (mc, h1)) in enumerate(zip(g['ops'], rs, codes)):
                     mo = ERR[mc]
                     model_stats[mo] = model_stats.get(mo, 0) + 1
-                    if mo != res['outcome'] or (mo == 'ok' and same != 1):
+                    if mo != res['outcome'] or (mo == 'ok' and h1 != fingerprint(res['out'])):
                         disagree.append((gi, oi, mo))
         except (core.CoqEvalError, NotRepresentable) as e:
             tie = 'model evaluation failed: %s' % str(e)[-800:]
